@@ -146,7 +146,11 @@ class C03(Property):
     def evaluate(self, case, driver):
         fails, tags = [], []
         kind = case["kind"]
-        tags += ["kind:" + kind, "mode:" + case["mode"]]
+        tags += ["kind:" + kind, "mode:" + case["mode"]] + c01.feature_tags(case)
+        for r in case["envs"]:
+            for op in r.get("prefix", []) + [o for br in r.get("branches", [[]]) for o in br]:
+                if op[0] == "batch":
+                    tags.append("op:batch")
         variants = [("listed", case)]
         if case.get("perm"):
             variants.append(("permuted", permuted_case(case, case["perm"])))
